@@ -271,6 +271,11 @@ def run(ctx):
         rec = log[line - 1]
         for k, i, cl in probs:
             where = 'tree%d' % k if k else 'model'
+            if cl == 'fit-raised' and rec['src'] in ('against-trend', 'near-dup') and ('Unable to compute tau' in rec['err'] or 'Constant column' in rec['err']):
+                # the loud refusal of a nearly deterministic table beyond the first tree is finding F36 of C16; C17 speaks of fitted vines,
+                # a vine that was not fitted is not observed here
+                ctx.extra['nearly_deterministic_tables_refused_by_fit'] = ctx.extra.get('nearly_deterministic_tables_refused_by_fit', 0) + 1
+                continue
             detail = (':' + rec['err'].split(':')[0]) if cl == 'fit-raised' else ''
             sig = 'C17|%s|n=%d|%s%s|%s' % (rec['vtype'], rec['n'], cl, detail, where)
             ctx.violation(sig, '%s (%s vine, %d columns, truncation %d, table %s, %s edge %d)' %
